@@ -42,6 +42,8 @@ var interpretFuncs = map[string]bool{
 	"net.isZeros":                            true,
 	"(net.IP).Equal":                         true,
 	"net.bytesEqual":                         true,
+	"(*github.com/golang-jwt/jwt/v4.RegisteredClaims).VerifyAudience": true,
+	"github.com/golang-jwt/jwt/v4.verifyAud":                          true,
 }
 
 // packages whose package-level variable initialisers are run although their functions are stubbed.
